@@ -63,3 +63,40 @@ Proof.
   - unfold zrange. rewrite map_map. reflexivity.
   - intros i Hi. apply in_zrange_pos in Hi; lia.
 Qed.
+
+(* ---- appended for C05: negative steps, and every selected index lies inside the sequence ---- *)
+Lemma in_zrange_neg s e step i :
+  step < 0 -> In i (zrange s e step) -> e < i <= s.
+Proof.
+  intros Hs Hin. unfold zrange in Hin. apply in_map_iff in Hin.
+  destruct Hin as [k [Hk Hin]]. apply in_seq in Hin. unfold range_len in Hin.
+  destruct (0 <? step) eqn:E; [lia|].
+  destruct (step <? 0) eqn:E2; [|lia].
+  assert (Hq : 0 < (s - e + - step - 1) / - step) by lia.
+  assert (Hk2 : Z.of_nat k <= (s - e + - step - 1) / - step - 1) by lia.
+  assert (Hm : (- step) * ((s - e + - step - 1) / - step) <= s - e + - step - 1)
+    by (apply Z.mul_div_le; lia).
+  nia.
+Qed.
+
+Lemma zrange_zero_step s e : zrange s e 0 = [].
+Proof. reflexivity. Qed.
+
+Lemma slice_indices_in_range len start stop step i :
+  In i (slice_indices len start stop step) -> 0 <= i < Z.of_nat len.
+Proof.
+  unfold slice_indices, adjust. set (k := step_of step). intros Hin.
+  destruct (Z.lt_trichotomy k 0) as [Hk | [Hk | Hk]].
+  - apply in_zrange_neg in Hin; [|exact Hk].
+    assert (E : (k <? 0) = true) by (apply Z.ltb_lt; exact Hk). rewrite E in Hin.
+    destruct start as [s|], stop as [e|];
+      repeat match type of Hin with context [?a <? ?b] => destruct (Z.ltb_spec a b) end; lia.
+  - rewrite Hk in Hin. cbn in Hin.
+    destruct start as [s|], stop as [e|];
+      repeat match type of Hin with context [?a <? ?b] => destruct (Z.ltb_spec a b) end;
+      cbn in Hin; contradiction.
+  - apply in_zrange_pos in Hin; [|exact Hk].
+    assert (E : (k <? 0) = false) by (apply Z.ltb_ge; lia). rewrite E in Hin.
+    destruct start as [s|], stop as [e|];
+      repeat match type of Hin with context [?a <? ?b] => destruct (Z.ltb_spec a b) end; lia.
+Qed.
